@@ -8,7 +8,7 @@
             BIP37), both validated there on published test vectors by evaluation.
    W = 2^32.  SHA-256 and the native/PyCrypto RIPEMD-160 are parameters (oracles), not modelled. *)
 From PV Require Import Base.Bytes Base.Outcome Gen.GenRipemd Spec.RipemdSpec Spec.MurmurSpec Model.Ripemd Model.Murmur
-  Proofs.WordsC19 Proofs.RipemdP Proofs.MurmurP.
+  Proofs.WordsC19 Proofs.RipemdP Proofs.MurmurP Proofs.BloomHistC19.
 Local Open Scope Z_scope.
 
 (* ---- RIPEMD-160 --------------------------------------------------------------------------------------------- *)
@@ -158,6 +158,43 @@ Theorem C19_bloom_added_item_stays_matched : forall (more : list bytes) (st : bl
 Proof. exact added_item_stays_matched. Qed.
 Print Assumptions C19_bloom_added_item_stays_matched.
 
+(* ---- histories of one BloomFilter object ------------------------------------------------------------------------- *)
+(* spec_step / spec_run (Proofs/BloomHistC19.v) is the memory-less BIP37 reading of a history on the triple
+   (vData, nHashFuncs, nTweak): add* = insert, set_bit, the direct assignments, and the observers check_bit and
+   filter_load_params which return a function of the CURRENT triple.  The object follows it for every history:
+   any interleaving of add_item / add_hash160 / add_spendable / set_bit / tweak= / hash_function_count= /
+   filter_bytes[i]= / filter_bytes= with check_bit and filter_load_params, on any non-empty filter state
+   (op_ok: items below 2^32 bytes, outpoint index a uint32, pokes in range, replacement of the same length) *)
+Theorem C19_bloom_history_is_memoryless : forall (ops : list bloom_op) (st : bloom),
+  bloom_wf st -> Forall (op_ok (length (bf_bytes st))) ops ->
+  exists st', run_ops st ops = Ret (st', snd (spec_run (fields st) ops)) /\
+              fields st' = fst (spec_run (fields st) ops) /\ bloom_wf st'.
+Proof. exact run_ops_spec. Qed.
+Print Assumptions C19_bloom_history_is_memoryless.
+
+(* history independence: deleting every check_bit / filter_load_params call from a history does not change the
+   resulting filter *)
+Theorem C19_bloom_observers_do_not_change_state : forall (ops : list bloom_op) (s : sstate),
+  fst (spec_run s ops) = fst (spec_run s (filter (fun op => negb (is_observer op)) ops)).
+Proof. exact observers_do_not_change_state. Qed.
+Print Assumptions C19_bloom_observers_do_not_change_state.
+
+(* ... and a filter_load_params() anywhere in a history returns exactly what the mutators before it built, however
+   many loads came earlier *)
+Theorem C19_bloom_filterload_sees_current_state : forall (pre post : list bloom_op) (s : sstate),
+  nth_error (snd (spec_run s (pre ++ OpLoad :: post))) (length pre)
+  = Some (let '(v, k, t) := fst (spec_run s pre) in ObsLoad v k t).
+Proof. exact load_sees_current_state. Qed.
+Print Assumptions C19_bloom_filterload_sees_current_state.
+
+(* every filterload handed out during a history of additions (and set_bit / check_bit / earlier filterloads) passes
+   BIP37's contains test for EVERY element added before it (loads_match states this at each OpLoad) *)
+Theorem C19_bloom_every_filterload_matches_all_added : forall (ops : list bloom_op) (added : list bytes) (v : bytes) (k t : Z),
+  (0 < length v)%nat -> Forall monotone_op ops -> all_contained (v, k, t) added ->
+  loads_match added (v, k, t) ops.
+Proof. exact every_load_matches_all_added. Qed.
+Print Assumptions C19_bloom_every_filterload_matches_all_added.
+
 (* ---- non-vacuity / sanity ---------------------------------------------------------------------------------------- *)
 (* a compress call on a state with huge and negative words meets the hypotheses and is congruent, not equal *)
 Example C19_compress_unbounded_state :
@@ -180,4 +217,12 @@ Proof. vm_compute. reflexivity. Qed.
 (* a well-formed filter exists; the Core vector through the MODEL *)
 Example C19_bloom_core_vector :
   bloom_session 3 5 0 [MurmurSpec.item1; MurmurSpec.item2; MurmurSpec.item3] = Ret (hx [0x61; 0x4e; 0x9b]).
+Proof. vm_compute. reflexivity. Qed.
+(* add, filterload, add again, filterload again (a node re-sending filterload): the second load carries both *)
+Example C19_bloom_reload_history :
+  match bloom_history 8 5 7 [OpAdd MurmurSpec.item1; OpLoad; OpAdd MurmurSpec.item2; OpLoad] with
+  | Ret (fb, [ObsNone; ObsLoad v1 _ _; ObsNone; ObsLoad v2 k t]) =>
+      bytes_eqb fb v2 && negb (bytes_eqb v1 v2) && contains v2 k t MurmurSpec.item1 && contains v2 k t MurmurSpec.item2
+  | _ => false
+  end = true.
 Proof. vm_compute. reflexivity. Qed.
